@@ -199,17 +199,17 @@ theorem ctfTR_link (g : MG Name) (hg : g.WF) (o c : Event)
     · rintro ⟨p, hp, rfl⟩
       exact ⟨p, by rcases List.mem_append.1 hp with h | h <;> simp [h], rfl⟩
   -- the outcomes over vertices that no condition names, and the others (redundant)
-  set oN := o.filter (fun p => decide (p.1.name ∉ eventNames c)) with hoN
+  set oN := dedup' (o.filter (fun p => decide (p.1.name ∉ eventNames c))) with hoN
   set oX := o.filter (fun p => decide (p.1.name ∈ eventNames c)) with hoX
   have hOnames : ∀ n, n ∈ (rootItems ν oN).map (·.1) ↔ (∃ p ∈ o, p.1.name = n) ∧ n ∉ eventNames c := by
     intro n
     rw [rootItems_names, List.mem_map]
     constructor
     · rintro ⟨p, hp, rfl⟩
-      rw [hoN, List.mem_filter, decide_eq_true_eq] at hp
+      rw [hoN, mem_dedup', List.mem_filter, decide_eq_true_eq] at hp
       exact ⟨⟨p, hp.1, rfl⟩, hp.2⟩
     · rintro ⟨⟨p, hp, rfl⟩, hn⟩
-      exact ⟨p, by rw [hoN, List.mem_filter, decide_eq_true_eq]; exact ⟨hp, hn⟩, rfl⟩
+      exact ⟨p, by rw [hoN, mem_dedup', List.mem_filter, decide_eq_true_eq]; exact ⟨hp, hn⟩, rfl⟩
   have hOinD : ∀ n, n ∈ (rootItems ν oN).map (·.1) → n ∈ ND ∧ n ∉ eventNames c := by
     intro n hn
     obtain ⟨⟨p, hp, rfl⟩, hnc⟩ := (hOnames n).1 hn
@@ -246,10 +246,10 @@ theorem ctfTR_link (g : MG Name) (hg : g.WF) (o c : Event)
     · rintro (⟨p, hp, rfl⟩ | ⟨p, hp, rfl⟩)
       · by_cases hpc : p.1.name ∈ eventNames c
         · exact Or.inr (Or.inl ⟨p, by rw [hoX, List.mem_filter, decide_eq_true_eq]; exact ⟨hp, hpc⟩, rfl⟩)
-        · exact Or.inl ⟨p, by rw [hoN, List.mem_filter, decide_eq_true_eq]; exact ⟨hp, hpc⟩, rfl⟩
+        · exact Or.inl ⟨p, by rw [hoN, mem_dedup', List.mem_filter, decide_eq_true_eq]; exact ⟨hp, hpc⟩, rfl⟩
       · exact Or.inr (Or.inr ⟨p, hp, rfl⟩)
     · rintro (⟨p, hp, rfl⟩ | ⟨p, hp, rfl⟩ | ⟨p, hp, rfl⟩)
-      · exact Or.inl ⟨p, (List.mem_filter.1 hp).1, rfl⟩
+      · exact Or.inl ⟨p, (List.mem_filter.1 (mem_dedup'.1 hp)).1, rfl⟩
       · exact Or.inl ⟨p, (List.mem_filter.1 hp).1, rfl⟩
       · exact Or.inr ⟨p, hp, rfl⟩
   have hRxc : ∀ j ∈ rootItems ν c, j ∈ rootItems ν oX ++ rootItems ν c := fun j hj => List.mem_append_right _ hj
@@ -263,7 +263,9 @@ theorem ctfTR_link (g : MG Name) (hg : g.WF) (o c : Event)
     · exact ⟨j, hj, rfl⟩
   have hOn : ((rootItems ν oN).map (·.1)).Nodup := by
     rw [rootItems_names]
-    exact cls.outNodup.sublist (List.filter_sublist.map _)
+    refine List.Nodup.map_on ?_ (nodup_dedup' _)
+    intro p hp q hq hpq
+    exact cls.outSame p (List.mem_filter.1 (mem_dedup'.1 hp)).1 q (List.mem_filter.1 (mem_dedup'.1 hq)).1 hpq
   have hOc : ∀ j ∈ rootItems ν oX ++ rootItems ν c, j.1 ∉ (rootItems ν oN).map (·.1) := by
     intro j hj hmem
     obtain ⟨k, hk, hkj⟩ := hRx j hj
